@@ -22,6 +22,7 @@ inductive PClass
   | mutRef         -- `&mut u32`
   | mutDyn         -- `&mut dyn core::fmt::Debug`: a `&mut` to a trait object (no lifetime spelled out: matched like any `&mut`)
   | mutStatic      -- `&'static mut u32`: a lifetime spelled on the `&mut` itself, none inside the pointee (not `Impossible`: only the pointee counts)
+  | mutGenU        -- `&mut U`: a `&mut` whose pointee is the method's own type parameter (no lifetime in it: an ordinary `&mut`)
   | mutImpossible  -- `&mut Vec<&'static u32>`: a `&mut` whose pointee mentions a lifetime
   | slice          -- `&[u32]`
   | genT           -- `T`, the trait's type parameter
@@ -207,6 +208,7 @@ def inputType : PClass → String
   | .mutRef => "&'__imutu32"
   | .mutDyn => "&'__imutdyncore::fmt::Debug"
   | .mutStatic => "&'staticmutu32"
+  | .mutGenU => "&'__imutU"
   | .mutImpossible => impossible
   | .slice => "&'__i[u32]"
   | .genT => "T"
@@ -222,6 +224,7 @@ def debugExpr (p : Param) : String :=
   | .mutRef => s!"(&*{p.name}).unimock_try_debug()"
   | .mutDyn => s!"(&*{p.name}).unimock_try_debug()"
   | .mutStatic => s!"(&*{p.name}).unimock_try_debug()"
+  | .mutGenU => s!"(&*{p.name}).unimock_try_debug()"
   | .mutImpossible => s!"(&*{p.name}).unimock_try_debug()"
   | .slice => s!"{p.name}.unimock_try_debug()"
   | .genT | .genU | .implInto _ => s!"{p.name}.unimock_try_debug()"
@@ -253,6 +256,7 @@ def answerParamType : PClass → String
   | .mutRef => "&mutu32"
   | .mutDyn => "&mutdyncore::fmt::Debug"
   | .mutStatic => "&'staticmutu32"
+  | .mutGenU => "&mutU"
   | .mutImpossible => "&mutVec<&'staticu32>"
   | .slice => "&[u32]"
   | .genT => "T"
